@@ -530,8 +530,8 @@ def main():
               'compiled with -O0; thorough tier of the checks that compile '
               'generated code: wide enumeration at -O0, then the quick '
               'enumeration again at compyle\'s -O3 (DESIGN.md section 8.6). '
-              '178 independently seeded property-breaking changes under '
-              'seeded/ (177 detected, table in DESIGN.md section 8.5).')
+              '190 independently seeded property-breaking changes under '
+              'seeded/ (189 detected, table in DESIGN.md section 8.5).')
     out = os.path.join(V, 'MANIFEST.json')
     with open(out, 'w') as f:
         json.dump(man, f, indent=1)
